@@ -49,6 +49,10 @@ pub struct ConcCase {
     /// "keep" | "remove" | "garbage". A loaded dictionary must not look at them again.
     #[serde(default)]
     pub resources_after_load: String,
+    /// dictionary life cycle on the long-lived thread: before anything else that thread loads a *decoy* dictionary
+    /// (same files, same plugin classes, other plugin parameters), analyses a text with it and drops it
+    #[serde(default)]
+    pub decoy: bool,
 }
 
 #[derive(Clone, Debug, PartialEq, Serialize, Deserialize)]
@@ -447,7 +451,16 @@ impl Engine for ConcSim {
             _ => Schedule::Pct { seed: rng.next_u64(), depth: 1 + rng.below(3) },
         };
         let resources_after_load = ["keep", "keep", "keep", "remove", "remove", "garbage"][rng.below(6)].to_string();
-        ConcCase { world, n_lists, threads, schedule, resources_after_load }
+        // every thread meets runs of every kind of prolonged sound mark / bracket once
+        if rng.chance(1, 2) {
+            for ops in threads.iter_mut() {
+                let at = rng.below(ops.len() + 1);
+                ops.insert(at, TokOp::Analyse { t: 0, text: DECOY_PROBE.to_string() });
+                ops.insert(at + 1, TokOp::Collect { t: 0, l: 0 });
+            }
+        }
+        let decoy = rng.chance(1, 2);
+        ConcCase { world, n_lists, threads, schedule, resources_after_load, decoy }
     }
 
     fn execute(&self, case: &ConcCase, stats: &mut Stats, work: &Path) -> Option<Violation> {
@@ -562,6 +575,57 @@ impl Engine for ConcSim {
     }
 }
 
+const DECOY_PROBE: &str = "アーー〜〜カ--~~〰〰東京(とう)京【か】[き]ab-12zzz";
+
+/// the world's configuration with the same plugin classes but other parameters
+fn decoy_config(cfg: &serde_json::Value) -> serde_json::Value {
+    let mut c = cfg.clone();
+    if let Some(arr) = c["inputTextPlugin"].as_array_mut() {
+        for p in arr.iter_mut() {
+            let class = p["class"].as_str().unwrap_or("").to_string();
+            if class.ends_with("ProlongedSoundMarkPlugin") {
+                let has_long = p["prolongedSoundMarks"].as_array().map(|a| a.iter().any(|x| x == "ー")).unwrap_or(false);
+                if has_long {
+                    p["prolongedSoundMarks"] = json!(["-", "~"]);
+                    p["replacementSymbol"] = json!("-");
+                } else {
+                    p["prolongedSoundMarks"] = json!(["ー", "〜", "〰"]);
+                    p["replacementSymbol"] = json!("ー");
+                }
+            }
+            if class.ends_with("IgnoreYomiganaPlugin") {
+                let wide = p["leftBrackets"].as_array().map(|a| a.len() > 2).unwrap_or(false);
+                if wide {
+                    p["leftBrackets"] = json!(["（"]);
+                    p["rightBrackets"] = json!(["）"]);
+                } else {
+                    p["leftBrackets"] = json!(["(", "（", "[", "【"]);
+                    p["rightBrackets"] = json!([")", "）", "]", "】"]);
+                }
+                p["maxYomiganaLength"] = json!(if p["maxYomiganaLength"].as_u64().unwrap_or(4) >= 3 { 1 } else { 4 });
+            }
+        }
+    }
+    if let Some(arr) = c["oovProviderPlugin"].as_array_mut() {
+        for p in arr.iter_mut() {
+            if p["class"].as_str().unwrap_or("").ends_with("RegexOovProvider") {
+                p["regex"] = json!(if p["regex"] == "z+" { "[a-z0-9]+(-[a-z0-9]+)*" } else { "z+" });
+            }
+        }
+    }
+    if let Some(arr) = c["pathRewritePlugin"].as_array_mut() {
+        for p in arr.iter_mut() {
+            if p["class"].as_str().unwrap_or("").ends_with("JoinKatakanaOovPlugin") {
+                p["minLength"] = json!(if p["minLength"].as_u64().unwrap_or(1) >= 3 { 1 } else { 4 });
+            }
+            if p["class"].as_str().unwrap_or("").ends_with("JoinNumericPlugin") {
+                p["enableNormalize"] = json!(!p["enableNormalize"].as_bool().unwrap_or(true));
+            }
+        }
+    }
+    c
+}
+
 pub fn execute(case: &ConcCase, stats: &mut Stats, work: &Path) -> Option<Violation> {
     // compiled bytes come from the per-thread world cache; dictionaries are loaded freshly so that
     // every lazily initialised piece of state is first touched *inside* the scheduled threads
@@ -588,6 +652,23 @@ pub fn execute(case: &ConcCase, stats: &mut Stats, work: &Path) -> Option<Violat
             Err(p) => Err(format!("panic {} {}", p.site, p.msg)),
         }
     };
+    if case.decoy {
+        // this (long-lived) thread has used another dictionary before: loaded, used and dropped right here, so that the
+        // dictionaries loaded next are likely to occupy the very same addresses
+        let mut spec2 = case.world.clone();
+        spec2.config = decoy_config(&case.world.config);
+        let r = catch(|| -> Result<(), String> {
+            write_resources(&spec2, &world.dir)?;
+            let cfg = make_config(&spec2, &world.dir)?;
+            let d = Arc::new(load_dict(&cfg, Storage::Owned(world.sys_bytes.clone()), world.user_bytes.iter().map(|b| Storage::Owned(b.clone())).collect())?);
+            let _ = run_ops(&d, &[TokOp::Analyse { t: 0, text: DECOY_PROBE.to_string() }, TokOp::Collect { t: 0, l: 0 }], 1, None);
+            Ok(())
+        });
+        match r {
+            Ok(Ok(())) => stats.inc("fault.decoy_dictionary_used_and_dropped"),
+            _ => stats.inc("decoy_dictionary_not_loadable"),
+        }
+    }
     let (base, shared) = match (fresh("base"), fresh("shared")) {
         (Ok(a), Ok(b)) => (a, b),
         _ => {
